@@ -4,7 +4,18 @@ import os, subprocess, json, shutil, time, hashlib, stat, signal, random
 from vlib import repo_bin, VERIF
 
 def port_for(tag, k=0):
-    return 21000 + (int(hashlib.sha1(tag.encode()).hexdigest(), 16) + k * 7 + os.getpid()) % 20000
+    """a private server port below the kernel's ephemeral range (32768..60999: the local port of any live outgoing
+    connection there makes the server's bind fail with AddrInUse, which a client takes for 'a server is already running'),
+    probed to be bindable right now"""
+    import socket
+    base = int(hashlib.sha1(tag.encode()).hexdigest(), 16) + k * 7 + os.getpid()
+    for j in range(200):
+        p = 21000 + (base + j * 13) % 11000
+        s = socket.socket()
+        try: s.bind(('127.0.0.1', p)); return p
+        except OSError: continue
+        finally: s.close()
+    return 21000 + base % 11000
 
 class Sc:
     def __init__(self, root, tag, env=None, uds=False):
